@@ -231,6 +231,7 @@ def run_c15(ck, fb, fbd):
     tet_occupied_rule(ck, fb, f4[0])
     get_label_rule(ck, fb)
     opposite_rule(ck, fb)
+    four_vertices_rule(ck, fb)
     # split_edge / split_face / collapse_edge delete cells in deferred mode and add new ones on the same halffaces: the
     # delete core must not reset a halfface's incident cell that already names the replacement (shared with C01/C02/C04)
     from . import lockstep
@@ -316,6 +317,65 @@ def tet_occupied_rule(ck, fb, f):
         return
     (ck.ok if occ else lambda r, w, t: ck.violate(r, w, t, "C15.occupied:occupied"))("C15.occupied", f.where, "add_cell(vertices, check) rejects a tetrahedron with a halfface that already has an incident cell")
     (ck.ok if conn else lambda r, w, t: ck.violate(r, w, t, "C15.occupied:connected"))("C15.occupied", f.where, "add_cell(vertices, check) rejects unless the halffaces use #halfedges == 2 * #edges")
+
+
+def four_vertices_rule(ck, fb):
+    """a topology-checked tetrahedral add_cell counts the vertices of the given halffaces (F37)"""
+    from .canon import Canon
+    ck.rule("C15.fourvertices", "TetrahedralMeshTopologyKernel::add_cell(halffaces, check): with the check requested, the base implementation is reached only under the fact that a set filled with the end vertices of every halfedge of every given halfface has exactly four members, and the other side of that test rejects - four triangles whose halfedges match pairwise can be two disjoint 'pillows' with six vertices, for which get_cell_vertices() returns an empty vector that the tet vertex iterator indexes")
+    fs = c11.handle_fns(fb, TET, "add_cell")
+    if len(fs) != 1:
+        raise AnalysisBroken("anchor vanished: TetrahedralMeshTopologyKernel::add_cell(halffaces)")
+    f = fs[0]
+    cn = Canon(f)
+    bools = [k for k, p_ in enumerate(f.d["params"]) if p_["t"] == "bool"]
+    if not bools:
+        raise AnalysisBroken("TetrahedralMeshTopologyKernel::add_cell(halffaces): no bool parameter")
+    P = "P%d" % bools[0]
+    sets = {cn._name[vid]: vid for vid, (v, b, i) in cn.decl.items() if re.match(r"std::(set|unordered_set)<OpenVolumeMesh::VH", v.get("t", "")) and vid in cn._name}
+    filled = {}
+    for nm, vid in sets.items():
+        for kind, b, i, m in cn.mods.get(vid, []):
+            if m.get("pn", "").split("::")[-1] in ("insert", "emplace") and m.get("a"):
+                filled.setdefault(nm, []).append(cn.s(m["a"][0]))
+    HE = r"each\(halfface\(each\(P0\)\)\.halfedges\(\)\)"
+    full = {nm for nm, args in filled.items() if any(re.fullmatch(r"(from_vertex_handle|to_vertex_handle)\(%s\)" % HE, a) or re.fullmatch(r"halfedge\(%s\)\.(from|to)_vertex\(\)" % HE, a) for a in args)}
+    dl = [(b, i, x) for b, i, x in f.nodes(("call",)) if x.get("pn") == c11.TK + "::add_cell" and b in f.reach()]
+    rej = [(b, i, x) for b, i, x in f.tops() if x.get("k") == "ret" and b in f.reach() and cn.s(x.get("x")) in ("InvalidCellHandle", "(CH)CH(-1)", "CH(-1)")]
+
+    def count_fact(b, want_eq):
+        for s_, p_, c_ in cn.facts(b):
+            q = split_eq(s_)
+            if not q:
+                continue
+            for nm in full:
+                if {q[1], q[2]} == {"4", "%s.size()" % nm} and (((q[0] == "==") == bool(p_)) == want_eq):
+                    return True
+        return False
+    if not full:
+        anyset = bool(filled)
+        if anyset:
+            ck.cannot_judge("C15.fourvertices %s: a vertex set is built, but not from the end vertices of every halfedge of every given halfface (%s) - not judged" % (f.where, sorted(filled.items())[:1]))
+        else:
+            ck.violate("C15.fourvertices", f.where, "add_cell(halffaces, check) counts the vertices of the given halffaces when the check is requested (no vertex set is built)", "C15.fourvertices:none")
+        return
+    ok_rej = any((P, True) in {(s_, p_) for s_, p_, c_ in cn.facts(b)} and count_fact(b, False) for b, i, x in rej)
+    (ck.ok if ok_rej else lambda r_, w_, t_: ck.violate(r_, w_, t_, "C15.fourvertices:reject"))("C15.fourvertices", f.where, "add_cell(halffaces, check) rejects when the halffaces do not span exactly four vertices")
+    checked = [(b, i, x) for b, i, x in dl if (P, True) in {(s_, p_) for s_, p_, c_ in cn.facts(b)} or (P, False) not in {(s_, p_) for s_, p_, c_ in cn.facts(b)}]
+    # the delegating call is shared by both settings of the flag: every path with the flag set passes the count test
+    reach_ok = True
+    for b, i, x in dl:
+        fs_ = {(s_, p_) for s_, p_, c_ in cn.facts(b)}
+        if (P, False) in fs_:
+            continue
+        if count_fact(b, True):
+            continue
+        # merged path: the block of the test (flag true) must lie on every flag-true path: the only predecessor chain with the
+        # flag set comes through the equality side of the test
+        preds_true = [pb for pb in f.reach() if b in f.succ(pb) and (P, True) in {(s_, p_) for s_, p_, c_ in cn.facts(pb)}]
+        if not preds_true or not all(count_fact(pb, True) for pb in preds_true):
+            reach_ok = False
+    (ck.ok if reach_ok else lambda r_, w_, t_: ck.violate(r_, w_, t_, "C15.fourvertices:bypass"))("C15.fourvertices", f.where, "with the check requested the base implementation is reached only after the four-vertex test passed")
 
 
 def opposite_rule(ck, fb):
@@ -555,9 +615,70 @@ def orientation_witness(ck, fb, consts, g):
     compile_witness(ck, "C16.orient", path)
 
 
+def reorder_total_rule(ck, fb, rule="C16.reorder"):
+    """the re-ordered halfface list handed to TopologyKernel::add_cell has every slot assigned"""
+    ck.rule(rule, "HexahedralMeshTopologyKernel::add_cell(halffaces, check): the re-ordered list starts as six invalid handles; every slot assignment outside a loop dominates the delegating call, and a loop that fills slots assigns one on every iteration that continues (an iteration that skips its assignment leaves an invalid handle in the list that TopologyKernel::add_cell then stores - found by fuzzing, F34)")
+    fs = c11.handle_fns(fb, HEX, "add_cell")
+    if len(fs) != 1:
+        raise AnalysisBroken("anchor vanished: HexahedralMeshTopologyKernel::add_cell(halffaces)")
+    f = fs[0]
+    dl = [(b, i, x) for b, i, x in f.nodes(("call",)) if x.get("pn") == c11.TK + "::add_cell" and b in f.reach()]
+    lists = {}
+    for b, i, x in dl:
+        for y in walk(f.resolve(x["a"][0])) if x.get("a") else []:
+            if isinstance(y, dict) and y.get("k") == "var" and y.get("s") != "param":
+                lists.setdefault(y["id"], []).append((b, i, x))
+    if not lists:
+        ck.cannot_judge("%s %s: no re-ordered local list is handed to TopologyKernel::add_cell - the re-ordering is written in a form the rule does not know" % (rule, f.where))
+        return
+    loops = f.loops()
+    for vid, calls in lists.items():
+        asg = []
+        for b, i, x in f.tops():
+            a = as_assign(x)
+            if not a or b not in f.reach():
+                continue
+            l = unwrap(f.resolve(a[0]))
+            base = l
+            while isinstance(base, dict) and (base.get("k") == "idx" or (base.get("k") == "call" and base.get("op") == "[]")):
+                base = unwrap(base.get("b") if base.get("k") == "idx" else base.get("r"))
+            if isinstance(base, dict) and base.get("k") == "var" and base.get("id") == vid and base is not l:
+                asg.append((b, i, x))
+        if not asg:
+            ck.cannot_judge("%s %s: the list handed to TopologyKernel::add_cell is not filled by element assignments" % (rule, f.where))
+            continue
+        for b, i, x in asg:
+            inl = [(h, body, backs) for h, body, backs in loops if b in body]
+            if not inl:
+                ok = all(f.dominates((b, i), (cb, ci)) for cb, ci, cx in calls)
+                (ck.ok if ok else lambda r_, w_, t_: ck.violate(r_, w_, t_, "%s:slot:%s" % (rule, estr(a_l(x))[:30])))(rule, f.loc(x), "add_cell: the slot assignment %s precedes the delegating call on every path" % estr(a_l(x))[:50])
+                continue
+            h, body, backs = min(inl, key=lambda z: len(z[1]))
+            blocked = {bb for bb, ii, xx in asg if bb in body}
+            # can a back edge be reached from the header without passing an assignment block?
+            seen_, work = set(), [s_ for s_ in f.succ(h) if s_ in body and s_ != h]
+            skip = False
+            while work:
+                u = work.pop()
+                if u in seen_ or u in blocked:
+                    continue
+                seen_.add(u)
+                if u in backs or h in f.succ(u):
+                    skip = True
+                    break
+                work += [s_ for s_ in f.succ(u) if s_ in body]
+            (ck.ok if not skip else lambda r_, w_, t_: ck.violate(r_, w_, t_, "%s:skip" % rule))(rule, f.loc(x), "add_cell: the loop that fills the re-ordered list assigns a slot on every iteration that continues%s" % ("" if not skip else " - an iteration can skip the assignment (continue) and leave an invalid handle in the list"))
+
+
+def a_l(x):
+    a = as_assign(x)
+    return a[0] if a else x
+
+
 def run_c16(ck, fb, fbd):
     from .hexwalk import hexwalk_rule
     hexwalk_rule(ck, fb)
+    reorder_total_rule(ck, fb)
     ck.rule("C16.layout", "add_cell(8 vertices): the six vertex quadruples form a closed oriented cube surface (24 directed edges, each once, each reverse once; 8 vertices of degree 3), quadruples 2k and 2k+1 are disjoint, walking the first quadruple's edges meets quadruples 2,4,3,5 in cyclic order, the looked-up quadruples equal the created ones, lookups use find_halfface_extensive, and the halffaces are stored in that order")
     f = [g for g in fb.by_cls.get(HEX, []) if g.name == "add_cell" and g.has_cfg and len(g.d["params"]) == 2 and "VH" in g.d["params"][0]["t"]]
     if not f:
